@@ -199,7 +199,9 @@ def run_check(prop, tier, budget=None, runs=None, seed=None, workers=None, no_mi
             abs_states.add(tuple(s))
         st = res['stats']
         if (st.get('spawns', 0) + st.get('instructions', 0) > 0) and \
-           (st.get('iterations', 0) > 2):
+           (st.get('iterations', 0) > 2) and \
+           (st.get('wake_late', 0) + st.get('wake_exact', 0) + st.get('wake_stall', 0) + st.get('crashes', 0)
+            + st.get('spoolfaults_fired', 0) + st.get('spawnfaults_fired', 0) + st.get('restarts', 0) > 0):
             nontrivial.add(res.get('plan_hash'))
         if len(samples) < 3 and st.get('spawns', 0) > 0:
             samples.append(res['seed'])
@@ -262,13 +264,13 @@ def run_check(prop, tier, budget=None, runs=None, seed=None, workers=None, no_mi
     faults = {k: v for k, v in stats.items() if k in (
         'spoolfaults_fired', 'spawnfaults_fired', 'crashes', 'clean_shutdowns', 'restarts',
         'crash_at_event', 'crash_at_write', 'crash_at_openat', 'crash_at_close', 'crash_at_renameat',
-        'crash_at_unlinkat', 'connections_refused')}
+        'crash_at_unlinkat', 'connections_refused', 'wake_late', 'wake_exact', 'wake_stall', 'unseen_replies')}
     ev = {
         'property_id': prop, 'tier': tier, 'seed': base_seed, 'level': cfg['level'],
         'coverage': {
             'evaluations': n, 'distinct_nontrivial': len(nontrivial),
             'rule': 'one evaluation = one simulated daemon life-cycle (1-3 process epochs) from a generated plan; '
-                    'non-trivial = at least one instruction or executor spawn and more than 2 loop iterations; '
+                    'non-trivial = at least one instruction or executor spawn, more than 2 loop iterations and at least one fault or schedule perturbation actually fired (late/exact/stalled wake-up, crash, restart, injected call failure); '
                     'distinct = by hash of the plan',
             'samples': sample_plans or [{'note': 'no run with a spawn in this batch'}],
             'runs_per_hour': int(n / max(wall_campaign, 1e-9) * 3600),
